@@ -135,12 +135,14 @@ class Gen:
 
     def fixture(self, nest):
         f = {"i": self.nid(), "setup_fail": self.draw(st.integers(0, 4)) == 0, "cleanup_fail": self.draw(st.integers(0, 4)) == 0,
-             "details": {}, "nested": None}
+             "details": {}, "nested": None, "details_fail": nest == 1 and self.draw(st.integers(0, 7)) == 0}
         if self.o.get("details"):
             for name in self.draw(st.lists(st.sampled_from(DETAIL_NAMES), max_size=2, unique=True)):
                 f["details"][name] = self.draw(CHUNKS)
         if nest and self.draw(st.integers(0, 2)) == 0:
             f["nested"] = self.fixture(nest - 1)
+        if f["setup_fail"] or f["nested"] is not None:
+            f["details_fail"] = False       # the fixtures library itself calls getDetails() while unwinding a failed setUp
         return f
 
     def stage(self, where, p_raise):
@@ -309,6 +311,10 @@ class Model:
         errors = []
         if self.fixture_setup(f, stage, errors):
             self.cleanups.append(("fixture", f))
+            if f.get("details_fail"):
+                # getDetails() raising right after a successful setUp: the fixture must still be cleaned up
+                self.note("error", f["i"], stage)
+                return False
             self.cleanups.append(("gather", f))
             return True
         for e in errors:
@@ -541,6 +547,12 @@ def build_case(prog, live, result_log=None, runner=None):
                     self.useFixture(make_fixture(f["nested"]))
                 if f["setup_fail"]:
                     raise RuntimeError("MARK-%d-" % f["i"])
+
+            def getDetails(self):
+                if f.get("details_fail") and not getattr(self, "_asked", False) and self._details is not None:
+                    self._asked = True
+                    raise RuntimeError("MARK-%d-" % f["i"])
+                return super().getDetails()
 
             def _clean(self):
                 live.log.append(("FC", f["i"]))
